@@ -84,7 +84,7 @@ class Runner:
         self.gen = torch.Generator().manual_seed(seed)
         torch.manual_seed(seed)                       # constructors draw from the global RNG
         self.t = build(cls, cfg, using_cache)
-        self._randomise(self.t, 0.2)
+        self._randomise(self.t, 0.2 if not cfg.get('scale') else 0.01 * cfg['scale'])   # (a prescribed scale is kept)
         self.ref = build(cls, cfg, False)
         self.ref.train()
         self.dtype = torch.float32
@@ -181,13 +181,13 @@ class Runner:
                 t.use_cache('yes')
             elif op == 'update':
                 # what an optimiser step does: in-place change of every parameter
-                self._randomise(t, 0.1)
+                self._randomise(t, 0.1 if not self.cfg.get('scale') else 0.01 * self.cfg['scale'])
                 self.ver += 1
                 self._snap()
             elif op == 'load':
                 torch.manual_seed(self.seed * 7919 + self.ver + 1)
                 other = build(self.cls, self.cfg, False)
-                self._randomise(other, 0.2)
+                self._randomise(other, 0.2 if not self.cfg.get('scale') else 0.01 * self.cfg['scale'])
                 # a checkpoint arrives either at the layer itself or — every other time — through the module that contains it
                 # (flow.load_state_dict): only the per-module hook `_load_from_state_dict` runs on the layer then
                 self.nload = getattr(self, 'nload', 0) + 1
